@@ -30,6 +30,8 @@ var rewrites = map[string][2]string{
 
 var yieldFuncs = map[string]bool{"createLockFile": true, "Unlock": true}
 
+var knobMmap bool
+
 func main() {
 	if len(os.Args) != 3 {
 		fmt.Fprintln(os.Stderr, "usage: instrument <dir> <simdir>")
@@ -68,6 +70,25 @@ func main() {
 				nimports++
 			}
 		}
+		if f.Name.Name == "fs" && filepath.Base(path) == "os_mmap.go" {
+			// tuning knob: the initial mapping size (1 GiB) becomes a variable the harness can shrink, so
+			// that the remap / mapping-doubling path runs with small files
+			for _, d := range f.Decls {
+				gd, ok := d.(*ast.GenDecl)
+				if !ok || gd.Tok != token.CONST {
+					continue
+				}
+				for _, sp := range gd.Specs {
+					vs, ok := sp.(*ast.ValueSpec)
+					if ok && len(vs.Names) == 1 && vs.Names[0].Name == "initialMmapSize" && len(vs.Values) == 1 {
+						gd.Tok = token.VAR
+						vs.Type = ast.NewIdent("int64")
+						changed = true
+						knobMmap = true
+					}
+				}
+			}
+		}
 		if f.Name.Name == "fs" {
 			hasYield := false
 			for _, d := range f.Decls {
@@ -104,6 +125,15 @@ func main() {
 		return os.WriteFile(path, buf.Bytes(), info.Mode())
 	})
 	if err != nil {
+		fmt.Fprintln(os.Stderr, "instrument:", err)
+		os.Exit(2)
+	}
+	// the setter of the knob (a no-op when the constant was not found in its usual shape)
+	knob := "package fs\n\n// VerifSetInitialMmapSize is added by /verif/tools/instrument to the scratch copy only.\nfunc VerifSetInitialMmapSize(n int64) {}\n"
+	if knobMmap {
+		knob = "package fs\n\n// VerifSetInitialMmapSize is added by /verif/tools/instrument to the scratch copy only.\nfunc VerifSetInitialMmapSize(n int64) { initialMmapSize = n }\n"
+	}
+	if err := os.WriteFile(filepath.Join(root, "fs", "verif_knobs.go"), []byte(knob), 0644); err != nil {
 		fmt.Fprintln(os.Stderr, "instrument:", err)
 		os.Exit(2)
 	}
